@@ -586,7 +586,7 @@ func (e *Engine) verifyFunc(con *Contract) *FuncResult {
 		res.Err = fmt.Errorf("contract target %s::%s not found", con.Pkg, con.Func)
 		return res
 	}
-	c := newFuncCtx(e, con.Mode, fnDisplayName(fn))
+	c := newFuncCtx(e, con.Mode, fnDisplayName(fn)+con.Tag)
 	c.rootFn = fn
 	c.rootCon = con
 	res.Ctx = c
